@@ -1,20 +1,5 @@
 // harness: c02_predicates::c02_float_literal_witness (feature c02)
 // replay: cd /verif && ./check --replay /verif/evidence/replays/C02/c02_float_literal_witness.rs
-/// Test generated for harness `c02_predicates::c02_float_literal_witness` 
-///
-/// Check for `assertion`: ""a float literal selects exactly the matching events""
-///
-/// # Warning
-///
-/// Concrete playback tests combined with stubs or contracts is highly
-/// experimental, and subject to change.
-///
-/// The original harness has stubs which are not applied to this test.
-/// This may cause a mismatch of non-deterministic values if the stub
-/// creates any non-deterministic value.
-/// The execution path may also differ, which can be used to refine the stub
-/// logic.
-
 #[test]
 fn kani_concrete_playback_c02_float_literal_witness_6240176717659186668() {
     let concrete_vals: Vec<Vec<u8>> = vec![
